@@ -1166,7 +1166,9 @@ class WebSocketProtocol13(WebSocketProtocol):
             data = await self._read_bytes(8)
             payloadlen = struct.unpack("!Q", data)[0]
         new_len = payloadlen
-        if self._fragmented_message_buffer is not None:
+        if self._fragmented_message_buffer is not None and not opcode_is_control:
+            # A control frame interleaved with a fragmented message is not
+            # part of that message.
             new_len += len(self._fragmented_message_buffer)
         if new_len > self.params.max_message_size:
             self.close(1009, "message too big")
